@@ -1198,6 +1198,31 @@ def rule_v1p(ctx):
 # RF1: the pruning in recurrent() is a fixpoint
 
 
+def _expanded_text(e, scope, depth=0):
+    """text of e with local names replaced by the single expression assigned
+    to them inside `scope` (so `t = d.keys(); list(t)` reads `list(d.keys())`)"""
+    import copy as _copy
+    assigns = {}
+    for n in ast.walk(scope):
+        if isinstance(n, ast.Assign) and len(n.targets) == 1 \
+                and isinstance(n.targets[0], ast.Name):
+            assigns.setdefault(n.targets[0].id, []).append(n.value)
+
+    class Sub(ast.NodeTransformer):
+        def __init__(self):
+            self.d = 0
+
+        def visit_Name(self, x):
+            if isinstance(x.ctx, ast.Load) and len(assigns.get(x.id, [])) == 1 \
+                    and self.d < 4:
+                self.d += 1
+                v = self.visit(_copy.deepcopy(assigns[x.id][0]))
+                self.d -= 1
+                return v
+            return x
+    return dotted(Sub().visit(_copy.deepcopy(e)))
+
+
 def rule_rf1(ctx):
     r = ctx.r
     r.rule("RF1", "recurrent() prunes to a fixpoint: either it rescans a "
@@ -1289,11 +1314,7 @@ def rule_rf1(ctx):
                 if names & progress:
                     breaks_ok = True
         it = fors[0].iter
-        st = dotted(it)
-        if isinstance(it, ast.Name):
-            for n in ast.walk(w):
-                if isinstance(n, ast.Assign) and dotted(n.targets[0]) == it.id:
-                    st = dotted(n.value)
+        st = _expanded_text(it, w)
         snap_ok = ("_out_dict" in st or "vertices()" in st) and \
             st.startswith(("list(", "tuple(", "sorted("))
         if breaks_ok and snap_ok:
@@ -1310,7 +1331,7 @@ def rule_rf1(ctx):
             for n in ast.walk(w):
                 if isinstance(n, ast.Assign) and dotted(n.targets[0]) == it.id:
                     src = n.value
-        st = dotted(src)
+        st = _expanded_text(src, w)
         snap_ok = ("_out_dict" in st or "vertices()" in st) and \
             st.startswith(("list(", "tuple(", "sorted("))
         set_true = any(isinstance(n, ast.Assign)
